@@ -27,9 +27,9 @@ let accept (req : json) : json =
   let finf (i : int) : bool = chk i; ops.(i) = 0 in
   let tz (a : int array) (x : z) : z = let i = small_of_z x in chk i; z_of_small a.(i) in
   let so (i : int) : int =
-    match step_over (tz pcs) (tz ops) fuel (z_of_small i) with Some j -> small_of_z j | None -> failwith "model: step_over does not return within the fuel" in
+    match step_over (tz ops) fuel (z_of_small i) with Some j -> small_of_z j | None -> failwith "model: step_over does not return within the fuel" in
   let sout (i : int) : int =
-    match step_out (tz sps) (tz ops) fuel (z_of_small i) with Some j -> small_of_z j | None -> failwith "model: step_out does not return within the fuel" in
+    match step_out (tz ops) fuel (z_of_small i) with Some j -> small_of_z j | None -> failwith "model: step_out does not return within the fuel" in
   let items = Array.of_list (to_list (field req "items")) in
   let nitems = Array.length items in
   (* next observed instruction index at or after item k *)
@@ -178,8 +178,9 @@ let step_cmd (req : json) : json =
   let i = to_z (field req "index") in
   let r = match to_str (field req "kind") with
     | "stepIn" -> Some (exec_in (tz ops) i)
-    | "next" -> step_over (tz pcs) (tz ops) fuel i
-    | "stepOut" -> step_out (tz sps) (tz ops) fuel i
+    | "next" -> step_over (tz ops) fuel i
+    | "next_pinned" -> step_over_pinned (tz pcs) (tz ops) fuel i
+    | "stepOut" -> step_out (tz ops) fuel i
     | "stepOut_pinned" -> step_out_pinned (tz pcs) (tz sps) (tz ops) (tz rets) fuel i
     | k -> failwith ("unknown step kind " ^ k) in
   Obj [ ("lands", jopt jz r) ]
@@ -193,6 +194,8 @@ let classify (req : json) : json =
   match to_str (field req "class") with
   | "Known_stepout_stack_dirty" ->
     Obj [ ("holds", Bool (known_stepout_stack_dirty (tz pcs) (tz rets) (to_z (field req "call")) (to_z (field req "index")))) ]
+  | "Known_next_reenters_call_site" ->
+    Obj [ ("holds", Bool (known_next_reenters_call_site (tz pcs) (to_z (field req "index")) (to_z (field req "call")))) ]
   | "Known_breakpoint_self_loop" ->
     Obj [ ("holds", Bool (known_breakpoint_self_loop (tz pcs) (to_z (field req "index")))) ]
   | c -> failwith ("unknown class " ^ c)
